@@ -83,3 +83,98 @@ def _escape_char_exhaustive():
         rows.append(dict(id=f"static/escape_char:extra={extra!r}", ok=not bad,
                          detail=f"{n} code points evaluated on the extracted function (source sha {h}); failing: {[hex(ord(c)) for c in bad[:8]]}"))
     return rows
+
+
+# ---------------------------------------------------------------------------------------------- frame condition: no state between calls
+
+STATELESS = [
+    UT + ".normalize_strings", UT + ".skip_trailing_comma", UT + ".normalize", UT + "._str_literal_helper", UT + ".triple_quote",
+    UT + ".value_to_token", UT + ".simple_token.__eq__",
+]
+
+
+def _module_state_used(qual):
+    """Frame condition `assigns \\nothing, reads no mutable module state`, decided syntactically on the current source:
+    the function (nested functions included) has no decorator, no `global` / `nonlocal` reaching module level, and every free name
+    is a builtin, an import, a module-level def / class, or a module-level name assigned exactly once to an immutable expression
+    (constants, attributes, tuples of those).  Returns the list of offending reasons (empty = the frame condition holds)."""
+    import builtins
+
+    m, fn, ci, outer = extract.find_function(qual)
+    reasons = []
+    if fn.decorator_list:
+        reasons.append("decorated with " + ", ".join(ast.unparse(d) for d in fn.decorator_list))
+    assigned = {}
+    for st in m.tree.body:
+        targets = []
+        if isinstance(st, ast.Assign):
+            targets = [(t, st.value) for t in st.targets]
+        elif isinstance(st, (ast.AnnAssign, ast.AugAssign)):
+            targets = [(st.target, st.value)]
+        for t, v in targets:
+            for n in ast.walk(t):
+                if isinstance(n, ast.Name):
+                    assigned.setdefault(n.id, []).append(v)
+
+    def immutable(e):
+        if e is None:
+            return False
+        if isinstance(e, ast.Constant):
+            return True
+        if isinstance(e, ast.Tuple):
+            return all(immutable(x) for x in e.elts)
+        if isinstance(e, ast.Attribute):
+            return isinstance(e.value, ast.Name) and e.value.id in m.imports  # token.NEWLINE ...
+        if isinstance(e, ast.UnaryOp):
+            return immutable(e.operand)
+        return False
+
+    local = set()
+    for n in ast.walk(fn):
+        if isinstance(n, (ast.Global, ast.Nonlocal)) and (isinstance(n, ast.Global) or outer is None):
+            reasons.append(f"`{ast.unparse(n)}`")
+        if isinstance(n, ast.arg):
+            local.add(n.arg)
+        if isinstance(n, ast.Name) and isinstance(n.ctx, (ast.Store, ast.Del)):
+            local.add(n.id)
+        if isinstance(n, (ast.FunctionDef, ast.ClassDef)) :
+            local.add(n.name)
+            if n is not fn and getattr(n, "decorator_list", None):
+                reasons.append(f"inner `{n.name}` is decorated")
+        if isinstance(n, ast.ExceptHandler) and n.name:
+            local.add(n.name)
+    if outer is not None:
+        for n in ast.walk(outer):
+            if isinstance(n, ast.arg):
+                local.add(n.arg)
+            if isinstance(n, ast.Name) and isinstance(n.ctx, ast.Store):
+                local.add(n.id)
+    for n in ast.walk(fn):
+        if isinstance(n, ast.Name) and isinstance(n.ctx, ast.Load) and n.id not in local:
+            nm = n.id
+            if hasattr(builtins, nm) or nm in m.imports or nm in m.funcs or nm in m.classes:
+                continue
+            vals = assigned.get(nm)
+            if vals is None:
+                reasons.append(f"free name `{nm}` is not defined at module level")
+            elif len(vals) != 1 or not immutable(vals[0]):
+                reasons.append(f"reads module-level `{nm}` (assigned {len(vals)}x, `{ast.unparse(vals[0])[:40]}`): mutable state shared between calls")
+    return sorted(set(reasons)), extract.source_hash(m, fn)
+
+
+@static_check("token-functions-keep-no-state", props=["C08", "C16", "C12", "C01"])
+def _stateless_table():
+    """C16: "The text written for a value depends only on the value and the surrounding file"; C08: generate -> tokenize -> compare is
+    a fixed point.  Both need the token functions to be functions of their argument: no memo table, no module-level mutable state,
+    no decorator that could add one (a cache keyed by `==` conflates -0.0 / 0.0, Decimal("1.0") / Decimal("1.00"), True / 1)."""
+    rows = []
+    for q in STATELESS:
+        try:
+            reasons, h = _module_state_used(q)
+        except LookupError:
+            rows.append(dict(id=f"static/stateless:{q.split('inline_snapshot.', 1)[-1]}", ok=False, detail="function not found"))
+            continue
+        rows.append(dict(id=f"static/stateless:{q.split('inline_snapshot.', 1)[-1]}", ok=not reasons,
+                         detail=(f"source sha {h}: no decorator, no global statement, every free name is a builtin / import / def / immutable constant"
+                                 if not reasons else "; ".join(reasons))))
+    return rows
